@@ -25,12 +25,18 @@ def _load(prop):
     return importlib.import_module('pbt.props.' + prop.lower())
 
 
+_quiet_done = [False]
+
+
 def _quiet_twisted():
-    # nothing may write to the real stdout/stderr from txdbus' log calls
+    # nothing may reach the real stdout/stderr from txdbus' log calls or from Deferreds that
+    # end in a failure nobody consumed (those are judged by the oracles, not by Twisted's logger)
+    if _quiet_done[0]:
+        return
+    _quiet_done[0] = True
     try:
-        from twisted.python import log
-        for o in list(log.theLogPublisher.observers):
-            log.theLogPublisher.removeObserver(o)
+        from twisted.logger import globalLogBeginner
+        globalLogBeginner.beginLoggingTo([lambda event: None], redirectStandardIO=False, discardBuffer=True)
     except Exception:
         pass
 
